@@ -3,6 +3,7 @@ package main
 
 import (
 	"bytes"
+	"crypto/sha1"
 	"fmt"
 	"reflect"
 	"strings"
@@ -76,12 +77,50 @@ func main() {
 			checkSpecial(run, e)
 		}
 	}
+	// history independence: every case encoded and decoded again, entries in reverse order; bytes and decoded
+	// value must be what the first pass saw (a per-type layout cache, a pooled buffer, a memoised conversion
+	// keyed too coarsely would make the answer depend on what was processed before)
+	reverse := 0
+	for i := len(reg.Entries) - 1; i >= 0; i-- {
+		e := reg.Entries[i]
+		if !e.IsStruct() {
+			continue
+		}
+		var cs []tlx.Case
+		g.Cases(e, 1, func(c tlx.Case) { cs = append(cs, c) })
+		for j := len(cs) - 1; j >= 0; j-- {
+			c := cs[j]
+			h, seen := firstBytes[c.ID]
+			if !seen {
+				continue
+			}
+			reverse++
+			var b []byte
+			var err error
+			if p, _, _ := vr.Try(func() { b, err = tl.Marshal(c.V.Interface()) }); p || err != nil || sha1.Sum(b) != h {
+				run.Violation(e.Name()+"|history-dependent-encoding", c.ID+": serialising the same value gives different bytes after a different history of calls", map[string]any{"ID": c.ID})
+				break
+			}
+			var obj tl.Object
+			if p, _, _ := vr.Try(func() { obj, err = tl.DecodeUnknownObject(b) }); p || err != nil {
+				run.Violation(e.Name()+"|history-dependent-decoding", c.ID+": bytes that decoded in the first pass do not decode in the second", map[string]any{"ID": c.ID})
+				break
+			} else if ok, _ := tlx.Equal(tlx.Normalize(c.V), reflect.ValueOf(obj), ""); !ok {
+				run.Violation(e.Name()+"|history-dependent-decoding", c.ID+": decoded value differs in the second pass", map[string]any{"ID": c.ID})
+				break
+			}
+		}
+	}
+	run.Set("reverse_order_pass_cases", reverse)
 	run.Set("registered", map[string]int{"structs": structs, "enum_members": enums, "hand_written_other": other, "unbuildable": unbuildable})
 	run.Set("deviation_bound_k", k)
 	run.Finish()
 }
 
 var sampled = 0
+
+// firstBytes: digest of the encoding of every case that encoded cleanly in the first pass
+var firstBytes = map[string][20]byte{}
 
 func checkCase(run *vr.Run, e *tlx.Entry, c tlx.Case) {
 	rep := map[string]any{"ID": c.ID}
@@ -120,6 +159,7 @@ func checkCase(run *vr.Run, e *tlx.Entry, c tlx.Case) {
 		sampled++
 		run.Sample(map[string]any{"case": c.ID, "bytes": len(b1)})
 	}
+	firstBytes[c.ID] = sha1.Sum(b1)
 	b2, err = tl.Marshal(v.Interface())
 	if err != nil || !bytes.Equal(b1, b2) {
 		run.Violation(site("encode-nondeterministic"), c.ID+": serialising twice gives different bytes", rep)
